@@ -231,6 +231,13 @@ func c05exec(c *h.Ctx, cs *h.Case) {
 			cs.Impl = append(cs.Impl, "bad-op")
 			continue
 		}
+		if tk[1] == "sleep" {
+			// a handler may stay blocked for as long as it likes; meanwhile nothing else of its instance may run
+			ms, _ := strconv.Atoi(tk[2])
+			time.Sleep(time.Duration(ms) * time.Millisecond)
+			cs.Impl = append(cs.Impl, "ok")
+			continue
+		}
 		i, _ := strconv.Atoi(tk[2])
 		in := r.insts[i]
 		if in == nil {
@@ -372,6 +379,9 @@ func c05gen(c *h.Ctx, yield func(*h.Case)) {
 		"c05 exit 1", "c05 exit 1", "c05 accept 0 6", "c05 exit 2", "c05 exit 0", "c05 exit 0", "c05 exit 0", "c05 exit 0"}})
 	yield(&h.Case{Class: "script-corpus", Ops: []string{
 		"c05 accept 0 1", "c05 close 0", "c05 accept 0 2", "c05 exit 0", "c05 accept 0 3", "c05 accept 1 4", "c05 exit 1"}})
+	// a handler that stays blocked for a long time (longer than any plausible internal time limit)
+	yield(&h.Case{Class: "script-long-block", Ops: []string{"c05 accept 0 1", "c05 accept 0 2", "c05 accept 1 3", "c05 sleep 10600",
+		"c05 accept 0 4", "c05 exit 1", "c05 exit 0", "c05 exit 0", "c05 exit 0"}})
 	// a long backlog behind a handler that never returns must not hold back another instance
 	{
 		ops := []string{"c05 accept 0 1"}
